@@ -1,5 +1,6 @@
 import PGT.Props.C13
 import PGT.Proofs.PackageIndep
+import PGT.Proofs.PackageSideOK
 /-
 C13, continued (proofs: `Proofs/PackageIndep.lean`): the converters and the schema factor through an erasure of the Go type
 strings (`eraseMsg`: Go types blanked, oneof wrapper types cut to their last segment, cast types kept only when they denote a
@@ -74,5 +75,19 @@ theorem C13_behaves_same_root (cfg : Config) (p t : String) (o : List (String ×
 theorem C13_time_package_witness :
     ¬ TyRel (prependPackageNameIfMissing [] "Time" "time") (prependPackageNameIfMissing [] "Time" "") := by
   intros; apply PGT.PackageIndep.TyRel_witness <;> assumption
+
+-- the side condition holds for every sane descriptor (identifier-like names; struct package not called `time`):
+-- string-level reasoning about typAndMod / prependPackageNameIfMissing / gogoGoType (`Proofs/PackageSideOK.lean`)
+section
+open PGT.PackageSideOK
+/-- **`SideOK_sane_full`**: the side condition of `C13_behaves_same` holds for every sane descriptor -/
+theorem C13_sideOK_sane : SideOK_sane_full := by
+  intros; apply PGT.PackageSideOK.sideOK_sane <;> assumption
+
+/-- **C13 for every sane descriptor**, without side condition -/
+theorem C13_behaves_same_sane : C13_behaves_same_full := by
+  intros; apply PGT.PackageSideOK.C13_behaves_same_sane <;> assumption
+
+end
 
 end PGT.Props.C13
